@@ -344,10 +344,19 @@ func (f *STFS) MkdirAll(path string, perm os.FileMode) error {
 	f.ioLock.Lock()
 	defer f.ioLock.Unlock()
 
-	parts := filepath.SplitList(path)
+	parts := strings.Split(filepath.ToSlash(path), "/")
 	currentPath := ""
 
-	for _, part := range parts {
+	for i, part := range parts {
+		if part == "" {
+			if i == 0 {
+				// Absolute path; the root directory itself always exists
+				currentPath = "/"
+			}
+
+			continue
+		}
+
 		if currentPath == "" {
 			currentPath = part
 		} else {
